@@ -50,6 +50,25 @@ Fixpoint turn_fee (r : nrate Q) (pe : Z * Z) : Q :=
 Definition turn_fee_opt (r : nrate Q) (pe : option (Z * Z)) : Q :=
   match pe with None => 0 | Some pe => turn_fee r pe end.
 
+(* CSV-backed tables (NetworkCostRateBuilder): the value a table gives a key is that of its LAST row with the key,
+   0 when no row has it; a combined configuration charges the SUM over all its tables, at any nesting *)
+Definition last_row {K} (keqb : K -> K -> bool) (rows : list (K * Q)) (k : K) : option Q :=
+  fold_left (fun acc kv => if keqb (fst kv) k then Some (snd kv) else acc) rows None.
+Definition table_value {K} (keqb : K -> K -> bool) (rows : list (K * Q)) (k : K) : Q :=
+  match last_row keqb rows k with Some c => c | None => 0 end.
+Fixpoint builder_edge_fee (b : nbuilder Q) (e : Z) : Q :=
+  match b with
+  | BTraversal (Some rows) => table_value Z.eqb rows e
+  | BCombined l => Qsum (map (fun b' => builder_edge_fee b' e) l)
+  | _ => 0
+  end.
+Fixpoint builder_turn_fee (b : nbuilder Q) (pe : Z * Z) : Q :=
+  match b with
+  | BAccess (Some rows) => table_value pair_eqb rows pe
+  | BCombined l => Qsum (map (fun b' => builder_turn_fee b' pe) l)
+  | _ => 0
+  end.
+
 (* feature i with slot i of the previous and of the next state vector *)
 Fixpoint rows {A} (fs : list (feat A)) (p n : list A) : list (feat A * A * A) :=
   match fs, p, n with
